@@ -1,6 +1,11 @@
 """C02 - component lifecycle callbacks fire exactly once per attach/detach."""
+import itertools
+
 from mc import kernel
+from mc.report import Violation
 from props.worldlib import WorldDriver
+
+import desper
 
 RULE = ('E1 breadth-first search over World operation histories interleaved '
         'with dispatch_enabled toggles on the real World; per-instance '
@@ -9,7 +14,12 @@ RULE = ('E1 breadth-first search over World operation histories interleaved '
         'disabled); is_handler of every handler instance ever created and a '
         'probe event are evaluated in every reached state.  Non-trivial = '
         'reached through same-type replacement, postponement, release of '
-        'postponed callbacks, clear, deferred deletion.')
+        'postponed callbacks, clear, deferred deletion.  Second part (E2): '
+        'every sequence of <= 3 lifecycle operations performed while '
+        'disabled x a raise or a re-disable-and-attach injected at every '
+        'delivery position of the release (<= 2 faults), re-enabled until '
+        'the backlog is gone: every postponed callback exactly once, in '
+        'operation order.')
 
 
 def drivers(tier):
@@ -35,6 +45,149 @@ def drivers(tier):
     return d
 
 
+# -- E2: faults injected while postponed lifecycle callbacks are released ----
+class Stop(Exception):
+    """Stands for Quit / SwitchWorld raised from a lifecycle callback."""
+
+
+class Env:
+    pass
+
+
+@desper.event_handler('on_add', 'on_remove')
+class HC:
+    def __init__(self, envx, label):
+        self.envx = envx
+        self.label = label
+
+    def _got(self, event, entity, world):
+        envx = self.envx
+        pos = len(envx.log)
+        envx.log.append((self.label, event, entity, world is envx.world))
+        fault = envx.plan.get(pos)
+        if fault == 'raise':
+            envx.fired.append((pos, fault))
+            raise Stop()
+        if fault == 'redisable_attach':
+            # the callback disables dispatching again and attaches one more
+            # component: its on_add is postponed *behind* the backlog
+            envx.fired.append((pos, fault))
+            world.dispatch_enabled = False
+            extra = HC(envx, f'late{pos}')
+            envx.keep.append(extra)
+            world.add_component(9, extra)
+            envx.groups.append(len(envx.expected))
+            envx.expected.append((extra.label, 'on_add', 9, True))
+
+    def on_add(self, entity, world):
+        self._got('on_add', entity, world)
+
+    def on_remove(self, entity, world):
+        self._got('on_remove', entity, world)
+
+
+LIFE_OPS = ('add1', 'add2', 'remove1', 'replace1', 'create', 'delete1_now')
+
+
+def run_release_case(case):
+    ops, plan = case
+    envx = Env()
+    envx.log = []
+    envx.plan = {}
+    envx.fired = []
+    envx.keep = []
+    envx.expected = []
+    envx.groups = []     # start index of each operation's callbacks
+    w = envx.world = desper.World()
+    first = HC(envx, 'first')
+    envx.keep.append(first)
+    w.add_component(1, first)
+    attached = {1: first}
+    envx.log.clear()
+    w.dispatch_enabled = False
+    n = 0
+    for op in ops:
+        n += 1
+        if op in ('add1', 'add2', 'replace1', 'create'):
+            ent = {'add1': 1, 'add2': 2, 'replace1': 1, 'create': 3}[op]
+            comp = HC(envx, f'c{n}')
+            envx.keep.append(comp)
+            old = attached.get(ent)
+            if op == 'create':
+                w.create_entity(comp, entity_id=ent)
+            else:
+                w.add_component(ent, comp)
+            envx.groups.append(len(envx.expected))
+            if old is not None:
+                envx.expected.append((old.label, 'on_remove', ent, True))
+            attached[ent] = comp
+            envx.expected.append((comp.label, 'on_add', ent, True))
+        elif op == 'remove1' and 1 in attached:
+            w.remove_component(1, HC)
+            envx.groups.append(len(envx.expected))
+            envx.expected.append((attached.pop(1).label, 'on_remove', 1,
+                                  True))
+        elif op == 'delete1_now' and 1 in attached:
+            w.delete_entity(1, immediate=True)
+            envx.groups.append(len(envx.expected))
+            envx.expected.append((attached.pop(1).label, 'on_remove', 1,
+                                  True))
+    if envx.log:
+        raise Violation('nothing_called_while_disabled', f'{case}: {envx.log}')
+    envx.plan = dict(plan)
+    hits = {}
+    for attempt in range(len(envx.expected) + 4):
+        try:
+            w.dispatch_enabled = True
+        except Stop:
+            hits['raise_during_release'] = 1
+        except Exception as exc:
+            raise Violation('enable_raised', f'{case}: {exc!r}')
+        if w.dispatch_enabled and len(envx.log) >= len(envx.expected):
+            break
+    for _, kind in envx.fired:
+        hits['fault_' + kind] = 1
+    feats = dict(faults=sorted({k for _, k in envx.fired}))
+    if sorted(envx.log) != sorted(envx.expected):
+        missing = [x[:3] for x in envx.expected if x not in envx.log]
+        extra = [x[:3] for x in envx.log if x not in envx.expected]
+        raise Violation('postponed_callbacks_exactly_once',
+                        f'{case}: delivered {[x[:3] for x in envx.log]}, '
+                        f'expected {[x[:3] for x in envx.expected]} (missing '
+                        f'{missing}, unexpected or repeated {extra})',
+                        lost=bool(missing), **feats)
+    bounds = envx.groups + [len(envx.expected)]
+    in_order = all(sorted(envx.log[a:b]) == sorted(envx.expected[a:b])
+                   for a, b in zip(bounds, bounds[1:]))
+    if not in_order:
+        raise Violation('postponed_callbacks_in_operation_order',
+                        f'{case}: delivered {[x[:3] for x in envx.log]}, '
+                        f'operation order {[x[:3] for x in envx.expected]}',
+                        **feats)
+    return {'calls': len(ops) + 1, 'hits': hits, 'key': repr(case),
+            'nontrivial': bool(envx.fired)}
+
+
+def release_cases(tier):
+    out = []
+    max_ops = 2 if tier == 'quick' else 3
+    for n in range(1, max_ops + 1):
+        for ops in itertools.product(LIFE_OPS, repeat=n):
+            npos = 2 * n + 1
+            plans = [()]
+            for pos in range(npos):
+                for kind in ('raise', 'redisable_attach'):
+                    plans.append(((pos, kind),))
+            if tier == 'thorough':
+                for p1, p2 in itertools.combinations(range(npos), 2):
+                    for k1, k2 in itertools.product(
+                            ('raise', 'redisable_attach'), repeat=2):
+                        plans.append(((p1, k1), (p2, k2)))
+            for plan in plans:
+                out.append((ops, plan))
+    return out
+
+
 def run(tier, rep):
     rep.rule = RULE
     rep.assumptions += [
@@ -49,9 +202,20 @@ def run(tier, rep):
                      clear=1, process_with_pending=1)
     for name, (driver, kw) in drivers(tier).items():
         kernel.explore(driver, rep, part=name, params=driver.params(), **kw)
+    rep.require_hits(fault_raise=1, fault_redisable_attach=1)
+    kernel.enumerate_cases(run_release_case, release_cases(tier), rep,
+                           'release-faults',
+                           params=dict(ops=LIFE_OPS,
+                                       faults=('raise', 'redisable_attach')))
 
 
 def replay(rec):
+    if rec['part'] == 'release-faults':
+        try:
+            run_release_case(kernel.totuple(rec['case']))
+        except Violation as v:
+            return v
+        return None
     for tier in ('thorough', 'quick'):
         ds = drivers(tier)
         if rec['part'] in ds:
